@@ -279,6 +279,12 @@ def r3(ctx) -> None:
     cv = ctx.fn("glotaran/utils/sanitize.py", "convert_scientific_to_float")
     ok = "rp.number_scientific" in norm(cv.node) and "float(value)" in norm(cv.node)
     ctx.ob("C16-R3", "convert_scientific_to_float/uses-pattern", ok, cv, cv.node, "strings matching the pattern are converted with float()")
+    uses = [c for c in lib.calls(cv) if isinstance(c.func, ast.Attribute) and "number_scientific" in norm(c.func.value)]
+    anchored = bool(src) and src.startswith("^") and src.rstrip().endswith("$")
+    ctx.ob("C16-R3", "convert_scientific_to_float/whole-string", bool(uses) and all(c.func.attr == "fullmatch" or (c.func.attr == "match" and anchored) for c in uses),
+           cv, uses[0] if uses else cv.node,
+           "only a string that *is* a number in scientific notation is converted: with a prefix match the valid label '1e3abc' is handed to "
+           "float() and loading the specification raises", construct=lib.short(uses[0], 90) if uses else "def")
 
 
 def check(ctx) -> None:
